@@ -31,6 +31,7 @@ var extraErrKinds = []error{
 	&fs.PathError{Op: "open", Path: "/blocks/x", Err: syscall.ENOENT},
 	context.Canceled,
 	traversal.SkipMe{},
+	fmt.Errorf("verif store: connection closed while reading block: %w", io.EOF),
 }
 
 func errOfKind(kind int) error {
@@ -49,10 +50,11 @@ func isInjected(err error, kind int) bool {
 	}
 	if kind == 0 {
 		var nf store.ErrNotFound
-		return errors.As(err, &nf) || strings.Contains(err.Error(), "verif store: block not found")
+		return errors.As(err, &nf)
 	}
+	// the very error the store returned, possibly wrapped: text that merely quotes it does not count
 	want := errOfKind(kind)
-	return errors.Is(err, want) || err == want || strings.Contains(err.Error(), want.Error())
+	return errors.Is(err, want) || err == want
 }
 
 func faultPos(i, n int) string {
